@@ -74,12 +74,14 @@ class BuildError(Exception):
 MODEL = os.path.join(VERIF, "coq", "extraction", "model")
 
 def coq_sources():
-    out = []
-    for root, dirs, files in os.walk(os.path.join(VERIF, "coq")):
-        for f in files:
-            if f.endswith(".v") or f in ("_CoqProject", "main.ml"):
-                out.append(os.path.join(root, f))
-    return sorted(out)
+    """the files the registered build depends on: what _CoqProject lists, the extraction inputs, setup.sh"""
+    coq = os.path.join(VERIF, "coq")
+    out = [os.path.join(coq, "_CoqProject"), os.path.join(coq, "extraction", "main.ml"), os.path.join(coq, "extraction", "Extract.v"),
+           os.path.join(coq, "extraction", "build.sh"), os.path.join(VERIF, "setup.sh")]
+    for line in open(os.path.join(coq, "_CoqProject")):
+        line = line.strip()
+        if line.endswith(".v"): out.append(os.path.join(coq, line))
+    return sorted(p for p in out if os.path.exists(p))
 
 def coq_hash():
     h = hashlib.sha256()
